@@ -8,7 +8,7 @@ CONSTANTS
   DirectOutcomes = {"ok", "err"}
   NotaryOutcomes = {"ok", "err"}
   HasLocal = FALSE
-  CtxModes = {"live"}
+  CtxModes = {"before", "deadline", "mid"}
   StopOnDone = FALSE
-INVARIANTS TypeOK ExactUnion EachServerOnce NothingEarly QueueBound Emit
+INVARIANTS TypeOK ExactUnion EachServerOnce NothingEarly QueueBound GoneBeforeTheCall Emit
 CHECK_DEADLOCK FALSE
